@@ -5,6 +5,7 @@ From SMD Require Import Model.Value Model.Order Model.PathElem Model.PathSet Mod
   Model.Walk Model.FieldSet Model.Remove Spec.PathsAsSets Spec.RefValid Spec.Resolve
   Proofs.OrderLaws Proofs.KeyLaws Proofs.PathSetLaws Proofs.ValidateLaws Proofs.SchemaOk
   Proofs.FieldSetMirrors Proofs.FieldSetBase Proofs.FieldSetShape.
+From SMD Require Proofs.CompareBase Proofs.FieldSetWf.
 Import ListNotations.
 Open Scope bool_scope.
 
@@ -159,39 +160,9 @@ Section Paths.
   (* ---- the inserted paths are well formed ---- *)
   Lemma fsp_wf : forall v tr q, R tr -> wf_value v = true -> In q (fsp s tr v) -> wf_path q = true.
   Proof.
-    intros v. induction v as [|b|z|q0|str|l IHl|m IHm] using value_ind'; intros tr q Htr Hwf;
-      unfold fsp; rewrite fs_paths_nil_eq;
-      (destruct (resolve s tr) as [a|] eqn:Er; [|intros []]);
-      (destruct (handle_atom (deduce_atom a _)) as [t|t|t|] eqn:Eh; [| | |intros []]);
-      try (simpl; intros [H|[]]; subst; reflexivity);
-      try (destruct (rel_is_atomic _); simpl; [intros [H|[]]; subst; reflexivity|intros []]).
-    - (* list *)
-      destruct (rel_is_atomic (list_rel t)); [simpl; intros [H|[]]; subst; reflexivity|].
-      assert (Hte : R (list_elem t)) by (eapply R_list_elem; eauto).
-      assert (Hiw : items_wf s t l) by (apply items_wf_R; auto).
-      destruct (pass1_spec s t [] l [] [] [] false eq_refl eq_refl eq_refl eq_refl Hiw)
-        as (d & new & Heq & _ & _ & _ & Hnew).
-      rewrite Heq. simpl. intros Hin. apply in_app_or in Hin. destruct Hin as [Hin|Hin].
-      + destruct (Hnew q Hin) as (e & Hq & He & _). subst q. simpl. rewrite He. reflexivity.
-      + apply in_flat_map in Hin. destruct Hin as (x & Hx & Hin). unfold item_paths in Hin.
-        destruct (list_item_to_pe s t x) as [e|] eqn:Ee; [|contradiction].
-        destruct (pes_has e d); [contradiction|].
-        apply in_map_iff in Hin. destruct Hin as (q0 & Hq & Hin). subst q.
-        apply wf_path_cons. split; [apply (Hiw x e Hx Ee)|].
-        apply in_app_or in Hin. destruct Hin as [Hin|[Hin|[]]]; [|subst; reflexivity].
-        rewrite Forall_forall in IHl. apply (IHl x Hx (list_elem t) q0 Hte); auto.
-        eapply wf_value_list_in; eauto.
-    - (* map *)
-      destruct (rel_is_atomic (map_rel t)); [simpl; intros [H|[]]; subst; reflexivity|].
-      simpl. intros Hin. apply in_flat_map in Hin. destruct Hin as ([k c] & Hkc & Hin).
-      unfold entry_paths in Hin. simpl in Hin.
-      apply in_map_iff in Hin. destruct Hin as (q0 & Hq & Hin). subst q.
-      apply wf_path_cons. split; [reflexivity|].
-      apply in_app_or in Hin. destruct Hin as [Hin|Hin].
-      + rewrite Forall_forall in IHm. apply (IHm (k, c) Hkc (field_type t k) q0); auto.
-        * eapply R_field_type; eauto.
-        * eapply wf_value_map_in; eauto.
-      + apply own0_in in Hin. subst. reflexivity.
+    intros v tr q Htr Hwf Hin.
+    pose proof (FieldSetWf.fs_paths_wf s R Hok v tr [] Htr eq_refl Hwf) as Hall.
+    rewrite forallb_forall in Hall. apply Hall. exact Hin.
   Qed.
 
   Lemma fsp_wf_all : forall v tr, R tr -> wf_value v = true -> forallb wf_path (fsp s tr v) = true.
@@ -220,14 +191,13 @@ Section Paths.
       apply andb_true_iff in Hc. destruct Hc as [Hhas Hconf].
       assert (Hte : R (list_elem t)) by (eapply (so_list s R Hok); eauto; reflexivity).
       assert (Hiw : items_wf s t l) by (apply items_wf_R; auto).
-      destruct (pass1_spec s t [] l [] [] [] false eq_refl eq_refl eq_refl eq_refl Hiw)
+      destruct (pass1_spec s t [] l [] [] [] false eq_refl eq_refl eq_refl eq_refl Hiw Hhas)
         as (d & new & Heq & _ & _ & _ & _).
-      rewrite Heq, Hhas. simpl.
+      rewrite Heq. simpl.
       destruct (existsb (item_err s t d) l) eqn:Ex; [|reflexivity].
       apply existsb_exists in Ex. destruct Ex as (x & Hx & Hex).
-      unfold item_err in Hex. rewrite forallb_forall in Hhas. specialize (Hhas x Hx).
-      unfold has_pe in Hhas. destruct (list_item_to_pe s t x) as [e|]; [|discriminate].
-      destruct (pes_has e d); [discriminate|].
+      unfold item_err in Hex. cbv zeta in Hex.
+      destruct (pes_has (list_item_pe_or_zero s t x) d); [discriminate|].
       rewrite Forall_forall in IHl. rewrite forallb_forall in Hconf.
       rewrite (IHl x Hx (list_elem t) Hte) in Hex; [discriminate| |apply Hconf; exact Hx].
       eapply wf_value_list_in; eauto.
@@ -289,24 +259,35 @@ Section Present.
   Variables (s : schema) (R : typeref -> Prop).
   Hypothesis Hok : schema_ok s R.
 
-  Lemma fsp_present : forall v tr q, R tr -> wf_value v = true -> fse s tr v = false ->
+  Hypothesis Hfam : family_refs s R.
+
+  Lemma fsp_present : forall v tr q, R tr -> wf_value v = true -> conforms s tr true v = true ->
     In q (fsp s tr v) -> present s tr v q = true.
   Proof.
-    intros v. induction v as [|b|z|q0|str|l IHl|m IHm] using value_ind'; intros tr q Htr Hwf;
-      unfold fse, fsp; rewrite fs_paths_nil_eq;
-      (destruct (resolve s tr) as [a|] eqn:Er; [|intros _ []]);
-      (destruct (handle_atom (deduce_atom a _)) as [t|t|t|] eqn:Eh; [| | |intros _ []]);
-      try (simpl; intros _ [H|[]]; subst; reflexivity);
-      try (destruct (rel_is_atomic _); simpl; [intros _ [H|[]]; subst; reflexivity|intros _ []]).
+    intros v. induction v as [|b|z|q0|str|l IHl|m IHm] using value_ind'; intros tr q Htr Hwf Hc;
+      unfold fsp; rewrite fs_paths_nil_eq;
+      (destruct (resolve s tr) as [a|] eqn:Er; [|intros []]);
+      (destruct (handle_atom (deduce_atom a _)) as [t|t|t|] eqn:Eh; [| | |intros []]);
+      try (simpl; intros [H|[]]; subst; reflexivity);
+      try (destruct (rel_is_atomic _); simpl; [intros [H|[]]; subst; reflexivity|intros []]).
     - (* list *)
-      destruct (rel_is_atomic (list_rel t)) eqn:Ea; [simpl; intros _ [H|[]]; subst; reflexivity|].
+      destruct (rel_is_atomic (list_rel t)) eqn:Ea; [simpl; intros [H|[]]; subst; reflexivity|].
       assert (Hte : R (list_elem t)) by (eapply R_list_elem; eauto).
       assert (Hiw : items_wf s t l) by (eapply items_wf_R; eauto).
-      destruct (pass1_spec s t [] l [] [] [] false eq_refl eq_refl eq_refl eq_refl Hiw)
+      assert (Hal : atom_list a = Some t).
+      { pose proof Eh as Eh'. apply CompareBase.handle_atom_list in Eh'.
+        apply CompareBase.deduce_list in Eh'. exact Eh'. }
+      assert (Hrel : list_rel t = RAssociative).
+      { destruct (Hfam tr a t Htr Er Hal) as [H|H]; [exact H|]. rewrite H in Ea. discriminate. }
+      assert (Hhc : forallb (has_pe s t) l = true /\
+                    forallb (fun x => conforms s (list_elem t) true x) l = true).
+      { rewrite conforms_eq, Er in Hc. destruct a as [sc li ma]. simpl in Hal. subst li.
+        rewrite Hrel in Hc. apply andb_true_iff in Hc. destruct Hc as [Hc _].
+        apply andb_true_iff in Hc. exact Hc. }
+      destruct Hhc as [Hhas Hconf].
+      destruct (pass1_spec s t [] l [] [] [] false eq_refl eq_refl eq_refl eq_refl Hiw Hhas)
         as (d & new & Heq & Hsd & Hwd & Hmem & Hnew).
-      rewrite Heq. simpl. intros Herr Hin.
-      apply orb_false_iff in Herr. destruct Herr as [Hhas Herr].
-      apply negb_false_iff in Hhas.
+      rewrite Heq. simpl. intros Hin.
       destruct (group_items_nil_spec s t l Hiw Hhas) as (g & Hg & Hgw & Hlk).
       apply in_app_or in Hin. destruct Hin as [Hin|Hin].
       + destruct (Hnew q Hin) as (e & Hq & He & H3). subst q. simpl in H3. simpl app.
@@ -319,8 +300,11 @@ Section Present.
         assert (Hk : kind_of s tr (VList l) = KList t l).
         { eapply handle_list_kind; eauto. intros ->. contradiction. }
         eapply present_list_dup; eauto. rewrite (Hlk e He), Eocc. reflexivity.
-      + apply in_flat_map in Hin. destruct Hin as (x & Hx & Hin). unfold item_paths in Hin.
-        destruct (list_item_to_pe s t x) as [e|] eqn:Ee; [|contradiction].
+      + apply in_flat_map in Hin. destruct Hin as (x & Hx & Hin).
+        pose proof Hhas as Hhx. rewrite forallb_forall in Hhx. specialize (Hhx x Hx).
+        unfold has_pe in Hhx.
+        destruct (list_item_to_pe s t x) as [e|] eqn:Ee; [|discriminate]. clear Hhx.
+        rewrite (item_paths_some s t d x e Ee) in Hin.
         destruct (pes_has e d) eqn:Ed; [contradiction|].
         apply in_map_iff in Hin. destruct Hin as (q1 & Hq & Hin). subst q.
         assert (He : wf_pe e = true) by (apply (Hiw x e Hx Ee)).
@@ -335,12 +319,15 @@ Section Present.
         apply in_app_or in Hin. destruct Hin as [Hin|[Hin|[]]]; [|subst; reflexivity].
         rewrite Forall_forall in IHl. apply (IHl x Hx (list_elem t) q1 Hte); auto.
         * eapply wf_value_list_in; eauto.
-        * pose proof (existsb_false_in _ _ _ x Herr Hx) as Hie. unfold item_err in Hie.
-          rewrite Ee in Hie. rewrite (pes_has_spec e d Hsd Hwd He), (Hmem e He) in Hie.
-          simpl in Hie. rewrite Ed in Hie. exact Hie.
+        * rewrite forallb_forall in Hconf. apply Hconf. exact Hx.
     - (* map *)
-      destruct (rel_is_atomic (map_rel t)) eqn:Ea; [simpl; intros _ [H|[]]; subst; reflexivity|].
-      simpl. intros Herr Hin. apply in_flat_map in Hin. destruct Hin as ([k c] & Hkc & Hin).
+      destruct (rel_is_atomic (map_rel t)) eqn:Ea; [simpl; intros [H|[]]; subst; reflexivity|].
+      assert (Ham : atom_map a = Some t).
+      { pose proof Eh as Eh'. apply CompareBase.handle_atom_map in Eh'.
+        apply CompareBase.deduce_map in Eh'. exact Eh'. }
+      assert (Hcm : cmap_each s true t m = true).
+      { rewrite conforms_eq, Er in Hc. destruct a as [sc li ma]. simpl in Ham. subst ma. exact Hc. }
+      simpl. intros Hin. apply in_flat_map in Hin. destruct Hin as ([k c] & Hkc & Hin).
       unfold entry_paths in Hin. simpl in Hin.
       apply in_map_iff in Hin. destruct Hin as (q1 & Hq & Hin). subst q.
       assert (Hk : kind_of s tr (VMap m) = KMap t m).
@@ -352,7 +339,7 @@ Section Present.
       + rewrite Forall_forall in IHm. apply (IHm (k, c) Hkc (field_type t k) q1); auto.
         * eapply R_field_type; eauto.
         * eapply wf_value_map_in; eauto.
-        * apply (existsb_false_in _ _ _ (k, c) Herr Hkc).
+        * eapply cmap_each_in; eauto.
       + apply own0_in in Hin. subst. reflexivity.
   Qed.
 
